@@ -396,7 +396,7 @@ func record(c *core.Ctx, h *history, res *execResult) {
 }
 
 func runC20(c *core.Ctx) {
-	c.Res.Rule = "histories of calls on each codec value exported by package parquet (Uncompressed, Snappy, Gzip, Brotli, Zstd, Lz4Raw: shared, pooled) and on a test codec run through the real compress.Compressor/Decompressor: round trips of generated inputs (empty, 1 B, random, repetitive, text-like, zero, ramp, mixed; sizes up to 64 KiB quick / 4 MiB thorough) with dst nil / zero-cap / small / large pre-filled with garbage / exact / aliasing an earlier output, interleaved with failing decodes (truncated and bit-flipped valid streams, valid streams followed by trailing bytes, random garbage, gzip and zstd headers followed by garbage, length bombs, empty) and GC cycles, sequentially and from 8-32 goroutines at once. A case is one call (or call pair) of a history; non-trivial = non-empty input or a failing decode; distinct by codec + JSON of the call."
+	c.Res.Rule = "histories of calls on each codec value exported by package parquet (Uncompressed, Snappy, Gzip, Brotli, Zstd, Lz4Raw: shared, pooled), on one shared value per compression level of each codec type (zstd 0-4, gzip -2/0/1/6/9, brotli quality 1-11 and lgwin 10-24, LZ4 Fastest and HC 1/4/9) and on a test codec run through the real compress.Compressor/Decompressor: round trips of generated inputs (empty, 1 B, random, repetitive, text-like, zero, ramp, mixed; sizes up to 64 KiB quick / 4 MiB thorough at random, and for every value and level the sizes just below and above 32/64/128 KiB, thorough also 1/4/8/16/32 MiB, quick 4/8 MiB for the exported values and every zstd level) with dst nil / zero-cap / small / large pre-filled with garbage / exact / aliasing an earlier output, interleaved with failing decodes (truncated and bit-flipped valid streams, valid streams followed by trailing bytes, random garbage, gzip and zstd headers followed by garbage, length bombs, empty) and GC cycles, sequentially and from 8-32 goroutines at once. A case is one call (or call pair) of a history; non-trivial = non-empty input or a failing decode; distinct by codec + JSON of the call."
 	quickTier = c.Quick()
 	maxSize := c.N(64<<10, 4<<20)
 	hostileMax := c.N(16<<10, 128<<10)
